@@ -64,9 +64,7 @@ def tupleOf (kids : List (SN τ)) (entry : DN) (u : List (List Tok)) : Option (L
 
 /-- classes (of size ≥ 2) of entries that have all leaves of the set and agree on all of them -/
 def agreeing (kids : List (SN τ)) (entries : List DN) (u : List (List Tok)) : List (List Tok) :=
-  let tups := entries.filterMap fun e => (tupleOf kids e u).map fun t => (t, e.name)
-  let keys := (tups.map (·.1)).eraseDups
-  (keys.map fun k => (tups.filter (·.1 = k)).map (·.2)).filter (·.length ≥ 2)
+  groups (entries.filterMap fun e => (tupleOf kids e u).map fun t => (t, e.name))
 
 mutual
 def violNode (sn : SN τ) (d : DN) (path xpath : List Tok) : List DErr :=
